@@ -2,6 +2,9 @@
   Driver for C04.  stdin: one case per line, stdout: `<model observation>\t<spec verdict>`.
 
   `m <e|n> <pattern hex> <text hex>`   Pattern API: `e` = `with_escape`, `n` = `without_escape`
+  `k <subject hex> <item> …`            shell leg: a whole `case` command; item = `<b|f|c>:<alt>,<alt>…`
+                                        (`;;` `;&` `;;&`), alt = `v<hex>` `$N` | `q<hex>` `"$N"` | `l<hex>` text in the
+                                        script | `s<hex>` `'text'` | `m<hex>_<hex>` `"$N"$M`
   `s <subject hex> <q1> <p1> <q2> <p2>` shell leg: `case $1 in ("$2"$3) …;; ("$4"$5) …;; (*) …` and
                                         `${1#"$2"$3}` `##` `%` `%%`
 -/
@@ -110,6 +113,37 @@ def observeShell (subj q1 p1 q2 p2 : List Char) : String × String :=
       s!"=arm={sarm} T={",".intercalate st}"
   (obs, spec)
 
+/-- pattern characters of one `case` alternative, by the way it is written in the script -/
+def altChars (t : String) : Option (List PatternChar) :=
+  match t.toList with
+  | 'v' :: h => do pure (shellPattern [] (← decChars (String.ofList h)))
+  | 'q' :: h => do pure ((← decChars (String.ofList h)).map .literal)
+  | 's' :: h => do pure ((← decChars (String.ofList h)).map .literal)
+  -- unquoted text in the script: the lexer makes a backslash quote the next character
+  | 'l' :: h => do pure (withEscape (← decChars (String.ofList h)))
+  | 'm' :: h =>
+    match (String.ofList h).splitOn "_" with
+    | [a, b] => do pure (shellPattern (← decChars a) (← decChars b))
+    | _ => none
+  | _ => none
+
+def parseItem (t : String) : Option (List (List PatternChar) × CaseCont) :=
+  match t.splitOn ":" with
+  | [c, alts] => do
+    let c ← (match c with | "b" => some CaseCont.brk | "f" => some .fallThrough | "c" => some .cont | _ => none)
+    let as ← (alts.splitOn ",").mapM altChars
+    pure (as, c)
+  | _ => none
+
+def showRun (l : List Nat) : String :=
+  if l.isEmpty then "-" else ".".intercalate (l.map fun i => toString (i + 1))
+
+def observeCase (subj : List Char) (items : List (List (List PatternChar) × CaseCont)) : String × String :=
+  let obs := s!"run={showRun (caseExec items subj)} st=0"
+  let sitems := items.map fun (as, c) => (as.map parseAtoms, c)
+  let spec := s!"=run={showRun (specCaseExec subj false 0 sitems)} st=0"
+  (obs, spec)
+
 def runLine (line : String) : String :=
   let r : Option (String × String) :=
     match words line with
@@ -120,6 +154,8 @@ def runLine (line : String) : String :=
       pure (observe pcs t)
     | ["s", s, q1, p1, q2, p2] => do
       pure (observeShell (← decChars s) (← decChars q1) (← decChars p1) (← decChars q2) (← decChars p2))
+    | "k" :: subj :: items => do
+      pure (observeCase (← decChars subj) (← items.mapM parseItem))
     | _ => none
   match r with
   | some (o, s) => o ++ "\t" ++ s
